@@ -107,3 +107,43 @@ class Workdir:
 
     def __exit__(self, *a):
         shutil.rmtree(self.d, ignore_errors=True)
+
+
+# ---------------------------------------------------------------- generated input tissues (already triangulated)
+def icosphere(level, radius, center, stretch=(1.0, 1.0, 1.0), egg=0.0):
+    """`egg` > 0 makes the shape asymmetric along z, so that planes through the centroid do not pass through nodes"""
+    import remesh_common as RC
+    P, T = RC.base_solid("icosa")
+    for _ in range(level):
+        P, T = RC.subdivide(P, T)
+    P = [[center[0] + radius * stretch[0] * p[0], center[1] + radius * stretch[1] * (p[1] + 0.5 * egg * p[0] * p[0]),
+          center[2] + radius * stretch[2] * (p[2] + egg * p[2] * p[2])] for p in P]
+    return P, T
+
+
+def write_vtk(path, cells):
+    """cells: list of (points, triangles, cell_type_id); one unstructured-grid polyhedron per cell, as the reader expects"""
+    pts = []
+    lines = []
+    for (P, T, ty) in cells:
+        base = len(pts)
+        pts += P
+        body = [str(len(T))]
+        for (a, b, c) in T:
+            body += ["3", str(a + base), str(b + base), str(c + base)]
+        lines.append("%d %s" % (len(body), " ".join(body)))
+    total = sum(len(l.split()) for l in lines)
+    with open(path, "w") as f:
+        f.write("# vtk DataFile Version 4.2\nvtk output\nASCII\nDATASET UNSTRUCTURED_GRID\nPOINTS %d double\n" % len(pts))
+        for p in pts:
+            f.write("%r %r %r\n" % (p[0], p[1], p[2]))
+        f.write("\nCELLS %d %d\n" % (len(cells), total))
+        for l in lines:
+            f.write(l + "\n")
+        f.write("\nCELL_TYPES %d\n" % len(cells))
+        f.write("\n".join("42" for _ in cells) + "\n")
+        f.write("\nCELL_DATA %d\nFIELD FieldData 1\ncell_type_id 1 %d int\n" % (len(cells), len(cells)))
+        f.write(" ".join(str(ty) for (_, _, ty) in cells) + "\n")
+
+
+DETERMINISTIC = {"std_growth_rate": "0", "std_division_volume": "0"}
